@@ -17,33 +17,52 @@ _current = [None]      # the harness whose run is in progress (is_type_of functi
 def is_type_of_factory(type_name):
     def is_type_of(value, info):
         hz = _current[0]
-        ok = isinstance(value, dict) and value.get('__tn') == type_name
+        also = value.get('__also', ()) if isinstance(value, dict) else ()
+        ok = isinstance(value, dict) and (value.get('__tn') == type_name or type_name in also)
         if hz is None or hz.sync_only:
             return ok
-        label = json.dumps(info.path.as_list()) + '@is:' + type_name
-        if hz._p('type', label) >= hz.p_type_async:
+        plabel = json.dumps(info.path.as_list())
+        label = plabel + '@is:' + type_name
+        if also and hz._p('ovl', plabel) < 0.7:
+            # a value that satisfies the checks of two possible types ("the first type that matches" decides): every check
+            # of this value is awaitable, so the outcome must not depend on which of them completes first
+            return hz._type(label, ok)
+        mode = 'sync' if hz._p('type', label) >= hz.p_type_async else 'async'
+        if also:
+            seen = hz.overlap_modes.setdefault(plabel, set())
+            seen.add(mode)
+            if len(seen) > 1:
+                hz.mixed_overlap = True
+        if mode == 'sync':
             return ok
         return hz._type(label, ok)
     return is_type_of
 
 
-def hide_typename(v):
-    """Values without a __typename key, so that abstract types can only be resolved through is_type_of."""
+def hide_typename(v, overlap=None):
+    """Values without a __typename key, so that abstract types can only be resolved through is_type_of.
+    overlap: None or a function value -> name of a second object type whose is_type_of the value satisfies as well (or None)."""
     if isinstance(v, dict) and '__typename' in v:
         v = dict(v)
         v['__tn'] = v.pop('__typename')
+        other = overlap(v) if overlap else None
+        if other and other != v['__tn']:
+            v['__also'] = (other,)
         return v
     if isinstance(v, list):
-        return [hide_typename(x) for x in v]
+        return [hide_typename(x, overlap) for x in v]
     if type(v).__name__ == 'FailingList':
-        return type(v)(hide_typename(v.items), v.exc)
+        return type(v)(hide_typename(v.items, overlap), v.exc)
     return v
 
 
 class Harness:
     def __init__(self, sched, value_fn, seed, p_async=0.5, p_item_async=0.2, p_iter=0.15, p_type_async=0.3, log=None, schema=None,
-                 sync_only=False, hide_typename=False):
+                 sync_only=False, hide_typename=False, overlap=None):
         self.hide = hide_typename
+        self.overlap = overlap
+        self.overlap_modes = {}
+        self.mixed_overlap = False
         self.sched = sched
         self.value_fn = value_fn
         self.seed = seed
@@ -60,6 +79,10 @@ class Harness:
         self.abort_at = None       # the n-th resolver invocation triggers the abort signal itself, synchronously
         self.abort_fn = None
 
+    def _second_type(self, v):
+        k = h(self.overlap, 'also', repr(v.get('__pk'))) % 8
+        return ['User', 'Dog', 'Cat'][k] if k < 3 else None
+
     def _p(self, *key):
         return (h(self.seed, 'mode', *key) % 10000) / 10000.0
 
@@ -74,7 +97,7 @@ class Harness:
 
         def compute():
             v = self.value_fn(path, info.parent_type.name, info.field_name, args, info.return_type)
-            return hide_typename(v) if self.hide else v
+            return hide_typename(v, self._second_type if self.overlap is not None else None) if self.hide else v
         if self.sync_only or self._p('field', label) >= self.p_async:
             self.mode[label] = 'sync'
             try:
